@@ -394,3 +394,15 @@ Lemma bhrz03_grows_b_ok x p : bhrz03_grows_b x p = true <-> bhrz03_grows x p.
 Proof. unfold bhrz03_grows_b, bhrz03_grows. rewrite andb_true_iff, !Nat.leb_le. tauto. Qed.
 Lemma h79_grows_b_ok x p : h79_grows_b x p = true <-> h79_grows x p.
 Proof. unfold h79_grows_b, h79_grows. apply Nat.leb_le. Qed.
+
+(* Grid_Certificate(gr), recounted from the minimized congruence system as the public iterator shows it (one flag
+   per congruence, true for an equality).  A minimized system of a non-empty grid of positive dimension also holds
+   the integrality congruence 0 = 0 (mod 1), which the iterator skips as trivially true and which
+   num_proper_congruences() counts (the generator-based branches add it explicitly: `num_parameters() + 1`);
+   in dimension 0 the constructor returns (0, 0) at once. *)
+Definition grid_of (n : nat) (eqs : list bool) : grid_cert :=
+  match n with
+  | O => {| g_num_equalities := 0; g_num_proper_congruences := 0 |}
+  | S _ => {| g_num_equalities := length (filter (fun b => b) eqs);
+              g_num_proper_congruences := S (length (filter (fun b => negb b) eqs)) |}
+  end.
